@@ -19,6 +19,11 @@ CLAIMS = {
    text="For all payload lengths at once: each of the 32 header bits handed to conn.Write is shown to be the SESSION_MESSAGE type, bit 16 of len(data) in bit 0 of the flags byte and the low 16 length bits big-endian, and the length Receive allocates is shown to be built from exactly the mirror header bits; a dominating guard must refuse payloads whose length does not fit the bits carried; every read is io.ReadFull/ReadAtLeast with its error tested and every success return is dominated by the success of both reads, returning the buffer of exactly the decoded length; header and payload reach the connection in one Write. Behaviour under arbitrary TCP segmentation or a cut connection follows from the trusted io.ReadFull contract and is not explored.",
    note=TRUST + " Additional for C11: io.ReadFull/io.ReadAtLeast contract (all-or-error); net.Conn.Write atomicity for a single call; concurrent Sends are out of scope.",
    design="§4 C11"),
+ "C17": dict(
+   technique="static analysis: lockset / exclusive-lock / lock-pairing / re-entry / guarded-alias-escape / who-may-touch rules on go/ssa with a flow-sensitive lock-state analysis",
+   text="The schedule-independent structural part of the property is decided for every interleaving at once: every load or store of the name table and of NameRecord fields reached through it executes with the server's RWMutex held on the same receiver (exclusive for writes), locks are paired on every exit and never re-acquired while held, no return value, channel send or outside store aliases guarded memory (QueryName must return a fresh copy), and nothing outside the server's methods touches the table. An unlocked or under-locked access is a race under some schedule however rarely a test would provoke it. The register/release/refresh conflict matrix, owner de-duplication and expiry semantics are histories of run-time values and are NOT decided by this family.",
+   note=TRUST + " Additional for C17: sync.RWMutex semantics; element values of Owners (net.IP bytes) are treated as immutable; panics between Lock and an explicit Unlock are not considered; linearizability of compound caller sequences is not decided.",
+   design="§3 E4, §4 C17"),
  "C19": dict(
    technique="static analysis: typed-AST table rules (enum coverage, name uniqueness, flag-family single bits, decomposer and predicate shape, deterministic order) over go/types constant values",
    text="Every declared constant of every bound enum/flag family (about 1800 NT status rows, command and sub-command codes, flag words) is enumerated from the type-checked source: each must be a key of its name table / have a case, names must be non-empty, non-placeholder and unique, flag constants single distinct bits, each decomposer test must test one constant against itself and append that constant's name exactly once in a deterministic order, each predicate must depend on exactly its own bit, and every non-success NT status must map to a non-nil error whose text carries the numeric code. Exhaustive over table rows by construction, which is what the property quantifies over.",
